@@ -45,17 +45,25 @@ FaultNames == {"wrapadd",      \* bounds check computed as cursor + 8 + size in 
                "zeroesize",    \* element size 0 accepted: `count` iterations that consume nothing
                "nooffcheck",   \* array offset used for seeking/slicing without comparing it with the length
                "scanpast",     \* string scan without an end-of-data test
-               "stuck"}        \* a case the reader has no rule for (unwrap / index / unreachable!)
+               "stuck",        \* a case the reader has no rule for (unwrap / index / unreachable!)
+               "marksat",      \* token stream: a state marker saturates at table LENGTH instead of the last index
+               "runover",      \* token stream: a run token writes past the declared output size
+               "backunder"}    \* token stream: a back reference reaches before the start of the output
 ASSUME Faults \subseteq FaultNames
 
 (***************************************************************************************************)
 (* Field roles and boundary symbols: shared with Gen_BoundedReader (the fault plan) and with       *)
 (* Trace_BoundedReader.                                                                            *)
 (***************************************************************************************************)
-Archetypes == {"chunk", "array", "string"}
+Archetypes == {"chunk", "array", "string", "token"}
 Roles == [chunk  |-> {"tag", "csize"},
           array  |-> {"count", "offset", "esize", "bsize", "shift", "index"},
-          string |-> {"strlen", "stroff", "term"}]
+          string |-> {"strlen", "stroff", "term"},
+          token  |-> {"marker"}]
+\* boundary repetition counts of a state marker (max = the count at which the decoder state saturates)
+RepSymbols == {"0", "1", "max-1", "max", "max+1", "2max"}
+RepCount(sym, max) == CASE sym = "0" -> 0 [] sym = "1" -> 1 [] sym = "max-1" -> (IF max > 0 THEN max - 1 ELSE 0)
+                        [] sym = "max" -> max [] sym = "max+1" -> max + 1 [] sym = "2max" -> 2 * max
 
 \* numeric boundary symbols of the property's quantifier text: 0, 1, 2^31-1, 2^31, 2^32-1, size+-1;
 \* `rem` = the exact largest value that still fits behind the field, `orig` = the valid value.
@@ -94,10 +102,11 @@ Mask4(v, w) == CASE w = 1 -> <<0, 0, 0, v[4] % 256>>
                  [] w = 2 -> <<0, 0, 0, v[4]>>
                  [] w = 4 -> <<0, 0, v[3], v[4]>>
                  [] OTHER -> v
-Literals == [x \in {"3", "4", "5", "7", "8", "9", "15", "16", "17", "31", "32", "33", "63", "64", "255", "256"} |->
+Literals == [x \in {"3", "4", "5", "7", "8", "9", "15", "16", "17", "31", "32", "33", "63", "64", "255", "256", "511", "512", "513"} |->
                CASE x = "3" -> 3 [] x = "4" -> 4 [] x = "5" -> 5 [] x = "7" -> 7 [] x = "8" -> 8 [] x = "9" -> 9
                  [] x = "15" -> 15 [] x = "16" -> 16 [] x = "17" -> 17 [] x = "31" -> 31 [] x = "32" -> 32
-                 [] x = "33" -> 33 [] x = "63" -> 63 [] x = "64" -> 64 [] x = "255" -> 255 [] x = "256" -> 256]
+                 [] x = "33" -> 33 [] x = "63" -> 63 [] x = "64" -> 64 [] x = "255" -> 255 [] x = "256" -> 256
+                 [] x = "511" -> 511 [] x = "512" -> 512 [] x = "513" -> 513]
 \* len = file length, rem = number of `unit`-sized elements that fit behind the field's base,
 \* orig = the valid value (limbs), w = field width in bytes
 Conc(sym, len, rem, orig, w, unit) ==
@@ -169,7 +178,8 @@ VARIABLES vflen,   \* length of the adversarial file
 
 vars == <<vflen, varch, vpc, vcur, vlim, vfld, vstk, vreq, vwork, vrd, vout>>
 
-NoFld == [size |-> WZero, cnt |-> WZero, off |-> WZero, esz |-> 0, idx |-> 0, cont |-> FALSE]
+NoFld == [size |-> WZero, cnt |-> WZero, off |-> WZero, esz |-> 0, idx |-> 0, cont |-> FALSE,
+          out |-> 0, tbad |-> FALSE, bbad |-> FALSE]   \* token stream: output so far; a table lookup / back reference went out of range
 Top == vlim[1]
 F(f) == f \in Faults
 
@@ -182,8 +192,9 @@ StuckCase == F("stuck") /\ \/ (vpc = "chunk_check" /\ vfld.size = WZero)
                            \/ (vpc = "string_scan" /\ vcur >= vflen)
 
 
-Init == /\ vflen \in 0..MaxLen
-        /\ varch \in Archetypes
+TokMaxLen == 8      \* the token-stream reader is explored on payloads of up to 8 bytes (keeps the model small)
+Init == /\ varch \in Archetypes
+        /\ vflen \in 0..(IF varch = "token" THEN MinN(TokMaxLen, MaxLen) ELSE MaxLen)
         /\ vpc = "start"
         /\ vcur = 0
         /\ vlim = <<vflen>>
@@ -203,7 +214,8 @@ Fail        == /\ Finish("err")
                /\ UNCHANGED <<vcur, vlim, vfld, vstk, vreq, vwork, vrd>>
 
 Start == /\ vpc = "start"
-         /\ vpc' = CASE varch = "chunk" -> "chunk" [] varch = "array" -> "array" [] OTHER -> "string"
+         /\ vpc' = CASE varch = "chunk" -> "chunk" [] varch = "array" -> "array" [] varch = "token" -> "token"
+                      [] OTHER -> "string"
          /\ UNCHANGED <<vflen, varch, vcur, vlim, vfld, vstk, vreq, vwork, vrd, vout>>
 
 (***************************************************************************************************)
@@ -448,6 +460,96 @@ StringScanPast ==
   /\ vcur' = vcur + 1
   /\ UNCHANGED <<vflen, varch, vpc, vlim, vfld, vstk, vout>>
 
+(***************************************************************************************************)
+(* (iv) token stream: the payload level (ADPCM code bytes, sparse / RLE runs, LZ back references). *)
+(* A 2-byte header, a declared output size (from the container), then one token per step:          *)
+(*   up / down   state markers: move the index into a TabLen-entry table, saturating at its ends    *)
+(*   code        ordinary token: looks the table up at the current index, emits one output unit     *)
+(*   run         a count byte follows: emits `count` units -- must fit the declared output          *)
+(*   backref     a distance follows: copies from `dist` units back -- must not precede the start    *)
+(***************************************************************************************************)
+TabLen  == 4
+MarkUp  == 2
+InitIdx == 1
+Expand  == 1            \* output units per input byte the codec can produce at most (model scale)
+
+TokenHeader ==
+  /\ vpc = "token"
+  /\ IF vcur + 2 <= vflen
+       THEN /\ \E osz \in Vals(vflen, vflen) :
+                 vfld' = [NoFld EXCEPT !.size = osz, !.idx = InitIdx]
+            /\ Read(vcur, 2) /\ Work(1)
+            /\ vcur' = vcur + 2
+            /\ vpc' = "token_alloc"
+            /\ UNCHANGED <<vlim, vstk, vreq, vout>>
+       ELSE Fail
+  /\ UNCHANGED <<vflen, varch>>
+
+\* the output buffer is reserved from the declared size, capped by what the input can expand to
+OutLimit == MinN(NatOf(vfld.size), Expand * vflen)
+TokenAlloc ==
+  /\ vpc = "token_alloc"
+  /\ Alloc(OutLimit)
+  /\ vpc' = "token_loop"
+  /\ UNCHANGED <<vflen, varch, vcur, vlim, vfld, vstk, vwork, vrd, vout>>
+
+TokenMore == vcur < vflen /\ vfld.out < OutLimit
+
+TokenMarker ==
+  /\ vpc = "token_loop" /\ TokenMore
+  /\ Read(vcur, 1) /\ Work(1) /\ NoAlloc
+  /\ \/ vfld' = [vfld EXCEPT !.idx = IF F("marksat") THEN MinN(@ + MarkUp, TabLen) ELSE MinN(@ + MarkUp, TabLen - 1)]
+     \/ vfld' = [vfld EXCEPT !.idx = IF @ > 0 THEN @ - 1 ELSE 0]
+  /\ vcur' = vcur + 1
+  /\ UNCHANGED <<vflen, varch, vpc, vlim, vstk, vout>>
+
+TokenCode ==
+  /\ vpc = "token_loop" /\ TokenMore
+  /\ Read(vcur, 1) /\ Work(1) /\ NoAlloc
+  /\ \E d \in {-1, 1} :
+        vfld' = [vfld EXCEPT !.tbad = (vfld.idx >= TabLen),                     \* table lookup at the current index
+                             !.idx = IF @ + d < 0 THEN 0 ELSE MinN(@ + d, TabLen - 1),
+                             !.out = @ + 1]
+  /\ vcur' = vcur + 1
+  /\ UNCHANGED <<vflen, varch, vpc, vlim, vstk, vout>>
+
+TokenRun ==
+  /\ vpc = "token_loop" /\ TokenMore
+  /\ IF vcur + 2 <= vflen
+       THEN \E c \in Vals(vflen, OutLimit - vfld.out) :
+              IF Small(c) /\ NatOf(c) <= OutLimit - vfld.out
+                THEN /\ vfld' = [vfld EXCEPT !.out = @ + NatOf(c)]
+                     /\ Read(vcur, 2) /\ Work(1) /\ NoAlloc
+                     /\ vcur' = vcur + 2
+                     /\ UNCHANGED <<vpc, vlim, vstk, vout>>
+                ELSE IF F("runover")
+                  THEN /\ vfld' = [vfld EXCEPT !.out = Cap(@ + NatOf(c))]
+                       /\ Read(vcur, 2) /\ Work(1) /\ NoAlloc
+                       /\ vcur' = vcur + 2
+                       /\ UNCHANGED <<vpc, vlim, vstk, vout>>
+                  ELSE Fail
+       ELSE Fail
+  /\ UNCHANGED <<vflen, varch>>
+
+TokenBackref ==
+  /\ vpc = "token_loop" /\ TokenMore
+  /\ IF vcur + 2 <= vflen
+       THEN \E dist \in Vals(vflen, vfld.out) :
+              IF (Small(dist) /\ NatOf(dist) <= vfld.out /\ NatOf(dist) > 0) \/ F("backunder")
+                THEN /\ vfld' = [vfld EXCEPT !.bbad = ~(NatOf(dist) <= vfld.out /\ NatOf(dist) > 0), !.out = MinN(@ + 1, OutLimit)]
+                     /\ Read(vcur, 2) /\ Work(1) /\ NoAlloc
+                     /\ vcur' = vcur + 2
+                     /\ UNCHANGED <<vpc, vlim, vstk, vout>>
+                ELSE Fail
+       ELSE Fail
+  /\ UNCHANGED <<vflen, varch>>
+
+\* input exhausted or output complete: a short output is an error or (lenient) accepted
+TokenDone ==
+  /\ vpc = "token_loop" /\ ~TokenMore
+  /\ \E o \in (IF vfld.out >= OutLimit THEN {"ok"} ELSE {"ok", "err"}) : Finish(o)
+  /\ UNCHANGED <<vflen, varch, vcur, vlim, vfld, vstk, vreq, vwork, vrd>>
+
 Done == vpc = "done" /\ UNCHANGED vars
 
 Next == \/ Start
@@ -455,6 +557,7 @@ Next == \/ Start
         \/ ArrayHeader \/ ArrayAccept \/ ArrayReject \/ ArrayReadElem \/ ArrayDone
         \/ StringHeader \/ StringLenAccept \/ StringLenReject \/ StringOffAccept \/ StringOffReject
         \/ StringScan \/ StringUnterminated
+        \/ TokenHeader \/ TokenAlloc \/ TokenMarker \/ TokenCode \/ TokenRun \/ TokenBackref \/ TokenDone
         \* deviations (each guarded by its fault name)
         \/ ChunkWrapAdd \/ ChunkNoCheck \/ ChunkNoProgress
         \/ ArrayPrealloc \/ ArrayMulWrap \/ ArrayZeroEsize \/ ArrayNoOffCheck
@@ -471,7 +574,7 @@ Spec == Init /\ [][Next]_vars /\ WF_vars(Next)
 (***************************************************************************************************)
 TypeOK == /\ vflen \in 0..MaxLen /\ varch \in Archetypes
           /\ vpc \in {"start", "chunk", "chunk_check", "array", "array_prealloc", "array_check", "array_read",
-                      "string", "string_check", "string_scan", "done"}
+                      "string", "string_check", "string_scan", "token", "token_alloc", "token_loop", "done"}
           /\ vcur \in 0..BIG /\ vreq \in 0..BIG /\ vwork \in 0..BIG
           /\ vout \in {"run", "ok", "err"}
 
@@ -480,6 +583,11 @@ AllocBounded  == vreq <= AllocK * vflen + AllocC
 WorkBounded   == vwork <= WorkK * vflen * (vflen + 1) + WorkC
 CursorInside  == vcur <= vflen /\ \A i \in 1..Len(vlim) : vlim[i] <= vflen
 OutcomeTotal  == (vpc = "done") <=> (vout \in TotalOutcomes)
+\* token stream
+TableIndexInBounds == ~vfld.tbad
+OutputBounded      == varch = "token" => vfld.out <= Expand * vflen + 1 /\ (vpc = "token_loop" => vfld.out <= OutLimit)
+BackrefInBounds    == ~vfld.bbad
+TokenProgress      == [][(vpc = "token_loop" /\ vpc' = "token_loop") => vcur' > vcur]_vars
 
 ChunkProgress  == [][(vpc = "chunk_check" /\ vpc' = "chunk") => vcur' > vcur]_vars
 ArrayProgress  == [][(vpc = "array_read" /\ vpc' = "array_read" /\ Len(vstk') = Len(vstk)) => vfld'.idx > vfld.idx]_vars
